@@ -36,9 +36,17 @@ def canon(fn, n, inline=True, depth=0, keep=()):
         if r['k'] in ('Parm',):
             return r['n']
         if r['k'] == 'Local':
+            fl = getattr(fn, 'frozen_locals', None)
+            if not inline and fl is not None and r['n'] not in fl and r['n'] not in keep and depth <= 6:
+                # a local that the reference tree did not have: show what it stands for
+                d = single_def(fn, r['id'])
+                if d is not None:
+                    return canon(fn, d, inline, depth + 1, keep)
             if r['n'] in keep or not inline or depth > 6:
                 return r['n']
             d = single_def(fn, r['id'])
+            if d is None:
+                d = reaching_def(fn, n)
             if d is None:
                 return r['n']
             return canon(fn, d, inline, depth + 1, keep)
@@ -110,6 +118,66 @@ def single_def(fn, vid):
     if init is not None and not local_writes(fn, vid):
         res = init
     _SD[key] = res
+    return res
+
+
+_RD = {}
+
+
+def reaching_def(fn, use):
+    """the one definition of a local that reaches the use node `use` on every path: its defining expression, else None.
+    Definitions are the initialiser and plain assignments; any other write (compound assignment, ++, address taken)
+    anywhere makes the variable opaque."""
+    r = use.get('ref') or {}
+    if r.get('k') != 'Local':
+        return None
+    key = (fn.id, use['i'])
+    if key in _RD:
+        return _RD[key]
+    vid = r['id']
+    res = None
+    defs = []          # (anchor node in the CFG, value expression)
+    opaque = False
+    for n in fn.all_nodes():
+        if n['k'] == 'VarDecl' and n.get('id') == vid and kids(n):
+            defs.append((n, kids(n)[0]))
+    for w in local_writes(fn, vid):
+        par = fn.parent(w)
+        while par is not None and par['k'] in ('ImplicitCastExpr', 'ParenExpr'):
+            par = fn.parent(par)
+        if par is not None and par['k'] == 'BinaryOperator' and par.get('op') == '=' and strip_casts(kids(par)[0]) is w:
+            defs.append((par, kids(par)[1]))
+        elif par is not None and par['k'] == 'CXXOperatorCallExpr' and par.get('op') == '=' and strip_casts(kids(par)[1]) is w:
+            defs.append((par, kids(par)[2]))
+        else:
+            opaque = True
+    if not opaque and defs:
+        c = fn.cfg
+        try:
+            dom = [d for d in defs if c.node_dominates(d[0], use) and not fn.inside(use, d[0])]
+            if dom:
+                # the dominating definition closest to the use
+                best = dom[0]
+                for d in dom[1:]:
+                    if c.node_dominates(best[0], d[0]):
+                        best = d
+                pos_use = {use['i']} | {a['i'] for a in fn.ancestors(use)}
+                clean = True
+                for d in defs:
+                    if d is best or (c.node_dominates(d[0], best[0]) and d in dom):
+                        continue
+                    p0 = c.position(d[0])
+                    if p0 is None:
+                        clean = False
+                        break
+                    if c.path_avoiding(p0, {best[0]['i']}, pos_use) is not None:
+                        clean = False
+                        break
+                if clean:
+                    res = best[1]
+        except Exception:
+            res = None
+    _RD[key] = res
     return res
 
 
